@@ -81,6 +81,16 @@ impl Scene {
     }
     pub fn idx(&self, id: usize) -> usize { self.ids.iter().position(|x| *x == id).expect("body present") }
     /// put body b next to body a along +y with the given gap (negative: overlapping)
+    /// like `place_next`, but the bodies face each other only near a corner of `a`: `b` is shifted sideways so that the
+    /// projections overlap by 30 % of the smaller extent in x and z (the distance is still `gap`, along y)
+    pub fn place_at_corner(&mut self, a: usize, b: usize, gap: f64, sx: f64, sz: f64) {
+        let (ia, ib) = (self.idx(a), self.idx(b));
+        let ba = self.boxes[ia];
+        let hb = self.boxes[ib].h;
+        let ox = 0.3 * ba.h[0].min(hb[0]);
+        let oz = 0.3 * ba.h[2].min(hb[2]);
+        self.boxes[ib].c = [ba.c[0] + sx * (ba.h[0] + hb[0] - 2.0 * ox), ba.c[1] + ba.h[1] + gap + hb[1], ba.c[2] + sz * (ba.h[2] + hb[2] - 2.0 * oz)];
+    }
     pub fn place_next(&mut self, a: usize, b: usize, gap: f64) {
         let (ia, ib) = (self.idx(a), self.idx(b));
         let ba = self.boxes[ia];
